@@ -71,6 +71,46 @@ def print_execs(rng, quick):
         lines.append(print_line(rng, [rng.choice(CLASSES) for _ in range(rng.randint(1, 7))], ivals, fvals, drop=rng.random() < 0.15))
     return [["reset"] + lines[i:i + 60] for i in range(0, len(lines), 60)]
 
+def matrix_execs(rng, quick):
+    """every single conversion of the grammar at bounded widths: conversion x flag set x width x precision x length modifier,
+    each with boundary values (quick: two values per specification, thorough: all)"""
+    lines = []
+    ivals = [0, 1, -1, 255, 2**31, -2**63, 2**63 - 1]
+    fvals = [fbits(x) for x in (0.0, -0.0, 1.0, -1.5, 0.1, 123456.789, 1e-7, 9.999999e20, 1.7976931348623157e308, 5e-324)]
+    def sign_sets(c):
+        just = ["", "-", "0"]
+        sg = ["", "+", " "] if c in "di" else [""]
+        alt = ["", "#"] if c in "oxX" else [""]
+        return [j + g + a for j in just for g in sg for a in alt]
+    for c in "diuoxX":
+        for fl in sign_sets(c):
+            for w in ("", "1", "7"):
+                for p in ("", ".0", ".4"):
+                    if p and "0" in fl: continue                      # the 0 flag is ignored with a precision: same output as without
+                    for lm in ("", "l", "ll", "h", "hh"):
+                        vs = ivals if not quick else [0, rng.choice(ivals[1:])]
+                        for v in vs:
+                            lines.append("print %s %d C%s,I,%d" % (rng.choice("SF"), rng.choice([0, 4]), h("%" + fl + w + p + lm + c), v))
+    for c in "fFeEgGaA":
+        for j in ("", "-", "0"):
+            for g in ("", "+", " "):
+                for a in ("", "#"):
+                    for w in ("", "3", "14"):
+                        for p in ("", ".0", ".2", ".9"):
+                            vs = fvals if not quick else [rng.choice(fvals)]
+                            for v in vs:
+                                lines.append("print %s %d C%s,F,%016x" % (rng.choice("SF"), rng.choice([0, 4]), h("%" + j + g + a + w + p + rng.choice(["", "l"]) + c), v))
+    for j in ("", "-"):
+        for w in ("", "3", "10"):
+            for p in ("", ".0", ".2"):
+                for v in STRS:
+                    lines.append("print %s %d C%s,S,%s" % (rng.choice("SF"), rng.choice([0, 4]), h("%" + j + w + p + "s"), h(v)))
+    for j in ("", "-"):
+        for w in ("", "1", "4"):
+            for v in (33, 65, 126, 255, 1):
+                lines.append("print %s %d C%s,I,%d" % (rng.choice("SF"), rng.choice([0, 4]), h("%" + j + w + "c"), v))
+    return [["reset"] + lines[i:i + 80] for i in range(0, len(lines), 80)]
+
 def round_execs(rng, quick):
     lines = []
     ivals = vints(rng, 24) + [rng.randint(-2**63, 2**63 - 1) for _ in range(600 if quick else 6000)]
